@@ -41,6 +41,11 @@ Section Prod4.
     safe4 t p l (fun r l' => safe4 t (q r) l' Q) -> safe4 t (bind p q) l Q.
   Proof. apply Conc.safe_bind. Qed.
 
+  Ltac getv Hv Hv1 Hm Hs HvQ :=
+    pose proof (f_equal (fun x : L4 => fst (fst x)) Hv) as Hv1; pose proof (f_equal (fun x : L4 => fst (snd (fst x))) Hv) as Hm;
+    pose proof (f_equal (fun x : L4 => snd (snd (fst x))) Hv) as Hs; pose proof (f_equal (fun x : L4 => snd x) Hv) as HvQ;
+    cbn [fst snd] in Hv1, Hm, Hs, HvQ; clear Hv.
+
   Ltac open4 g x1 xE xQ m tr HI HE HQ HM Hv1 Hm Hs Hd Hi Hj :=
     cbn [Conc.safe]; intros g [[[x1 xE] xQ] m] tr (HI & HE & HQ & HM) Hv;
     unfold view4, view, viewE, viewQ in Hv; cbn [fst snd] in *; injection Hv as Hv1 Hm Hs Hd Hi Hj.
@@ -52,19 +57,21 @@ Section Prod4.
     intros Ht. induction p as [r|es k IH|f k IH]; intros Hc l1 lE qi qj Q1 Hs; cbn [Conc.safe core] in *.
     - repeat split; auto.
     - destruct Hc as ((e & -> & Hp & Hdd) & Hk). intros g [[[x1 xE] xQ] m] tr (HI & HE & HQ & HM) Hv.
-      unfold view4 in Hv. cbn [fst snd] in *. injection Hv as Hv1 HvE HvQ.
+      unfold view4 in Hv. cbn [fst snd] in *.
+      pose proof (f_equal (fun x : L4 => fst (fst x)) Hv) as Hv1; pose proof (f_equal (fun x : L4 => snd (fst x)) Hv) as HvE; pose proof (f_equal (fun x : L4 => snd x) Hv) as HvQ; cbn [fst snd] in Hv1, HvE, HvQ.
       destruct (Hs g x1 tr HI Hv1) as (x1' & H1 & H2 & H3).
       exists (x1', xE, xQ, m). split; [split; [exact H1|split; [apply InvE_keep with (g := g); auto|split]]|].
       + rewrite tag1. apply InvQ_ev with (g := g); auto; intros _; unfold viewQ in HvQ; injection HvQ as Hd _ _; auto.
-      + apply InvM_keep with (g := g); auto. lia.
+      + apply InvM_keep with (g := g); auto; cbn; lia.
       + split; [apply frame4; [exact H2|apply frameE_refl|apply frameQ_refl]|].
         unfold view4. cbn [fst snd]. rewrite HvE, HvQ. apply IH; assumption.
     - destruct Hc as (Hf & Hk). intros g [[[x1 xE] xQ] m] tr (HI & HE & HQ & HM) Hv.
-      unfold view4 in Hv. cbn [fst snd] in *. injection Hv as Hv1 HvE HvQ.
+      unfold view4 in Hv. cbn [fst snd] in *.
+      pose proof (f_equal (fun x : L4 => fst (fst x)) Hv) as Hv1; pose proof (f_equal (fun x : L4 => snd (fst x)) Hv) as HvE; pose proof (f_equal (fun x : L4 => snd x) Hv) as HvQ; cbn [fst snd] in Hv1, HvE, HvQ.
       destruct (Hs g x1 tr HI Hv1) as (x1' & H1 & H2 & H3). destruct (Hf g) as ((Eb & Ee & Eq & En & Et) & e & Ee' & Hp & Hdd).
       exists (x1', xE, xQ, m). split; [split; [exact H1|split; [apply InvE_keep with (g := g); auto|split]]|].
       + rewrite Ee', tag1. apply InvQ_ev with (g := g); auto; intros _; unfold viewQ in HvQ; injection HvQ as Hd _ _; auto.
-      + apply InvM_keep with (g := g); auto. lia.
+      + apply InvM_keep with (g := g); auto; cbn; lia.
       + split; [apply frame4; [exact H2|apply frameE_refl|apply frameQ_refl]|].
         unfold view4. cbn [fst snd]. rewrite HvE, HvQ. apply IH; auto.
   Qed.
@@ -82,7 +89,7 @@ Section Prod4.
     destruct (Hf g) as (F1 & F2 & F3 & F4 & F5 & F6 & F7 & F8 & F9 & F10 & F11 & k0 & o & ok & Ee).
     exists (x1, xE, xQ, m). rewrite Ee. split; [split; cbn [fst snd]; [rewrite tag1; apply Inv_acc with (g := g); auto|split; [apply InvE_keep with (g := g); auto|split]]|].
     - rewrite tag1. apply InvQ_acc with (g := g); auto.
-    - apply InvM_keep with (g := g); auto. lia.
+    - apply InvM_keep with (g := g); auto; cbn; lia.
     - split; [intros ? ?; reflexivity|]. rewrite Hv. apply Hk.
   Qed.
 
@@ -97,7 +104,7 @@ Section Prod4.
     intros Hn H. cbn [Conc.safe]. intros g [[[x1 xE] xQ] m] tr (HI & HE & HQ & HM) Hv. cbn [fst snd] in *.
     exists (x1, xE, xQ, m). split; [split; cbn [fst snd]; [unfold cli; rewrite tag1; apply Inv_cli_neutral; assumption|split; [apply InvE_keep with (g := g); auto|split]]|].
     - unfold cli. rewrite tag1. apply InvQ_ev with (g := g); auto. intros X. destruct Hn as (Y & _). congruence.
-    - apply InvM_keep with (g := g); auto. lia.
+    - apply InvM_keep with (g := g); auto; cbn; lia.
     - split; [intros ? ?; reflexivity|]. rewrite Hv. exact H.
   Qed.
 
@@ -109,7 +116,7 @@ Section Prod4.
     safe4 t (Emit (cli "dispose" [p]) k0) (l1, ((p, oe, k) :: hs, es), lq) Q.
   Proof.
     intros Hw Hki Hk. cbn [Conc.safe]. intros g [[[x1 xE] xQ] m] tr (HI & HE & HQ & HM) Hv.
-    unfold view4, view, viewE in Hv. cbn [fst snd] in *. injection Hv as Hv1 Hm Hs HvQ.
+    unfold view4, view, viewE in Hv. cbn [fst snd] in *. getv Hv Hv1 Hm Hs HvQ.
     assert (Hin : In (t, (p, oe, k)) (e_h xE)) by (apply gmine_in; rewrite Hm; left; reflexivity).
     destruct (hand_retired _ _ _ _ _ _ _ HE Hin) as (_ & w' & Hat).
     exists (x1, mkE (e_buf xE) (grmf t (e_h xE)) (e_s xE), xQ, m). split; [split; cbn [fst snd]; [|split; [|split]]|].
@@ -130,7 +137,7 @@ Section Prod4.
   Proof.
     induction fuel as [|f IH]; intros Q Hw HQ; cbn [handoff]; [apply HQ|].
     cbn [Conc.safe]. intros g [[[x1 xE] xQ] m] tr (HI & HE & HQc & HM) Hv.
-    unfold view4, view, viewE in Hv. cbn [fst snd] in *. injection Hv as Hv1 Hm Hs HvQ. unfold a_post.
+    unfold view4, view, viewE in Hv. cbn [fst snd] in *. getv Hv Hv1 Hm Hs HvQ. unfold a_post.
     destruct (g_ready g); cbn [fst snd vz orb].
     - assert (Hwa : l_w (x1 t) = WFin i) by (rewrite Hv1; exact Hw).
       destruct (wfin_closed _ _ _ _ _ HI Hwa) as (Hc & Hi). destruct (E2 _ _ _ HE t i n Hs) as (Hn & _).
@@ -138,7 +145,7 @@ Section Prod4.
       + unfold acc. rewrite tag1. apply Inv_acc with (g := g); auto.
       + apply InvE_keep with (g := g); auto.
       + unfold acc. rewrite tag1. apply InvQ_mail; [left; reflexivity|exact HQc].
-      + apply InvM_post; auto. intros p e k [Hin|(t0 & Hin)] Hle.
+      + apply InvM_post with (m := m); auto. intros p e k [Hin|(t0 & Hin)] Hle.
         * destruct (EB _ _ _ HE p e k Hin) as (_ & _ & X). eapply X; eauto.
         * destruct (EH _ _ _ HE t0 p (Some e) k Hin) as (_ & _ & X). eapply X; eauto.
       + split; [intros ? ?; reflexivity|]. unfold view4, view, viewE. cbn [fst snd]. rewrite Hv1, Hm, Hs, HvQ. cbn. apply HQ.
@@ -146,7 +153,7 @@ Section Prod4.
       + unfold acc. rewrite tag1. apply Inv_acc with (g := g); auto.
       + apply InvE_keep with (g := g); auto.
       + unfold acc. rewrite tag1. apply InvQ_acc with (g := g); auto.
-      + apply InvM_keep with (g := g); auto. lia.
+      + apply InvM_keep with (g := g); auto; cbn; lia.
       + split; [intros ? ?; reflexivity|]. unfold view4, view, viewE. cbn [fst snd]. rewrite Hv1, Hm, Hs, HvQ. cbn. apply IH; auto.
   Qed.
 
@@ -160,7 +167,7 @@ Section Prod4.
     safe4 t (synchronize_t sfuel) (l1, (hs, es), clq) Q.
   Proof.
     intros Hn HT HF. unfold synchronize_t. cbn [Conc.safe]. intros g [[[x1 xE] xQ] m] tr (HI & HE & HQc & HM) Hv.
-    unfold view4, view, viewE in Hv. cbn [fst snd] in *. injection Hv as Hv1 Hm Hs HvQ. unfold a_epoch_faa. cbn [fst snd vz].
+    unfold view4, view, viewE in Hv. cbn [fst snd] in *. getv Hv Hv1 Hm Hs HvQ. unfold a_epoch_faa. cbn [fst snd vz].
     remember (List.length tr) as i eqn:Ei.
     assert (Hsm : SmB l1 i).
     { intros j Hj. assert (X : l_sm (x1 t) = Some j) by (rewrite Hv1; exact Hj). pose proof (sm_below _ _ _ _ _ HI X). lia. }
@@ -204,7 +211,7 @@ Section Prod4.
     safe4 t (push_buffer_t sfuel cap cnt p e) (l1, ((p, Some e, k) :: hs, es), clq) Q.
   Proof.
     intros Hn HT HF. unfold push_buffer_t. cbn [Conc.safe]. intros g [[[x1 xE] xQ] m] tr (HI & HE & HQc & HM) Hv.
-    unfold view4, view, viewE in Hv. cbn [fst snd] in *. injection Hv as Hv1 Hm Hs HvQ. unfold a_buf_push.
+    unfold view4, view, viewE in Hv. cbn [fst snd] in *. getv Hv Hv1 Hm Hs HvQ. unfold a_buf_push.
     destruct (Nat.ltb (List.length (g_buf g)) (g_bcap g)); cbn [fst snd vz].
     - exists (x1, mkE (e_buf xE ++ [(p, e, k)]) (grmf t (e_h xE)) (e_s xE), xQ, m). split; [split; cbn [fst snd]; [|split; [|split]]|].
       + unfold acc. rewrite tag1. apply Inv_acc with (g := g); auto.
@@ -220,10 +227,443 @@ Section Prod4.
       + unfold acc. rewrite tag1. apply Inv_acc with (g := g); auto.
       + apply InvE_keep with (g := g); auto.
       + unfold acc. rewrite tag1. apply InvQ_acc with (g := g); auto.
-      + apply InvM_keep with (g := g); auto. lia.
+      + apply InvM_keep with (g := g); auto; cbn; lia.
       + split; [intros ? ?; reflexivity|]. unfold view4, view, viewE. cbn [fst snd]. rewrite Hv1, Hm, Hs, HvQ. cbn [Z.eqb].
         apply safe4_bind. apply safe4_synchronize; [exact Hn| |intros l'; cbv beta iota; apply HF].
         intros i n Hbel _. cbv beta iota.
         eapply safe4_dispose; [reflexivity|apply (Hbel p (Some e) k); left; reflexivity|]. cbn. apply HT. intros [].
   Qed.
 End Prod4.
+
+Section Prod4b.
+  Variable N : nat.
+  Notation safe4 := (@Conc.safe G V ev Aux4 L4 view4 (Inv4 N)).
+  Variables (sfuel : nat) (cap : Z) (cnt : bool).
+
+  Ltac getv Hv Hv1 Hm Hs HvQ :=
+    pose proof (f_equal (fun x : L4 => fst (fst x)) Hv) as Hv1; pose proof (f_equal (fun x : L4 => fst (snd (fst x))) Hv) as Hm;
+    pose proof (f_equal (fun x : L4 => snd (snd (fst x))) Hv) as Hs; pose proof (f_equal (fun x : L4 => snd x) Hv) as HvQ;
+    cbn [fst snd] in Hv1, Hm, Hs, HvQ; clear Hv.
+
+  Section Client.
+  Variable t : nat.
+  Hypothesis Ht : (t < N)%nat.
+
+  Lemma safe4_retire_ev {R} p hs es l1 (k : prog R) Q :
+    (forall k0, safe4 t k (l1, (hs ++ [(p, None, k0)], es), clq) Q) ->
+    safe4 t (Emit (cli "retire" [p]) k) (l1, (hs, es), clq) Q.
+  Proof.
+    intros Hk. cbn [Conc.safe]. intros g [[[x1 xE] xQ] m] tr (HI & HE & HQc & HM) Hv.
+    unfold view4, view, viewE in Hv. cbn [fst snd] in *. getv Hv Hv1 Hm Hs HvQ.
+    exists (x1, mkE (e_buf xE) (e_h xE ++ [(t, (p, None, List.length tr))]) (e_s xE), xQ, m). split; [split; cbn [fst snd]; [|split; [|split]]|].
+    - unfold cli. rewrite tag1. apply Inv_cli_neutral; [repeat split|exact HI].
+    - unfold cli. rewrite tag1. apply InvE_retire; exact HE.
+    - unfold cli. rewrite tag1. apply InvQ_ev with (g := g); auto. discriminate.
+    - eapply InvM_gen with (g := g); [reflexivity|reflexivity|lia| |exact HM]. intros q e0 k1 He. left. eapply ent_snoc_none; eauto.
+    - split; [apply frame4; [apply frame_refl|apply frameE_snoc|apply frameQ_refl]|].
+      unfold view4, view, viewE. cbn [fst snd e_h e_s]. rewrite gmine_app, gmine_cons_same, Hm, Hv1, Hs, HvQ. cbn. apply Hk.
+  Qed.
+
+  Lemma safe4_emit_retires {R} ps : forall ents es l1 (k : prog R) Q,
+    (forall ents', map fst ents' = ps -> safe4 t k (l1, (map fresh_ent (ents ++ ents'), es), clq) Q) ->
+    safe4 t (emit_retires ps k) (l1, (map fresh_ent ents, es), clq) Q.
+  Proof.
+    induction ps as [|p r IH]; intros ents es l1 k Q Hk; cbn [emit_retires].
+    - specialize (Hk [] eq_refl). rewrite app_nil_r in Hk. exact Hk.
+    - apply safe4_retire_ev. intros k0.
+      change (safe4 t (emit_retires r k) (l1, (map fresh_ent ents ++ map fresh_ent [(p, k0)], es), clq) Q).
+      rewrite <- map_app. apply IH. intros ents' E. rewrite <- app_assoc. apply Hk. cbn. rewrite E. reflexivity.
+  Qed.
+
+  Lemma safe4_push_all e ents : forall es l1 (Q : bool -> L4 -> Prop),
+    ~ holder (l_w l1) ->
+    (forall w' es', ~ holder w' -> Q true (set_w l1 w', ([], es'), clq)) -> (forall l', Q false l') ->
+    safe4 t (push_all_t sfuel cap cnt e (map fst ents)) (l1, (map (loaded_ent e) ents, es), clq) Q.
+  Proof.
+    induction ents as [|[p k] r IH]; intros es l1 Q Hn HT HF; cbn [push_all_t map fst].
+    - cbn. rewrite <- (set_w_same l1). apply HT. exact Hn.
+    - apply safe4_bind. cbn [loaded_ent fst snd].
+      apply (safe4_push N sfuel cap cnt t Ht); [exact Hn| |intros l'; cbv beta iota; apply HF].
+      intros w' es' Hn'. cbv beta iota. apply IH; [exact Hn'| |exact HF].
+      intros w'' es'' Hn''. cbn [set_w]. apply HT. exact Hn''.
+  Qed.
+
+  Definition Between4 (s : lst) (l : L4) : Prop := IdleS s (fst (fst l)) /\ (exists es, snd (fst l) = ([], es)) /\ snd l = clq.
+
+  Lemma safe4_gpt_retire s ps tail l (Q : bool -> L4 -> Prop) :
+    (tail = [] \/ exists name, tail = cli name [] /\ neutral (EvCli name [])) ->
+    Between4 s l -> (forall l', Between4 s l' -> Q true l') -> (forall l', Q false l') ->
+    safe4 t (gpt_retire sfuel cap cnt ps tail) l Q.
+  Proof.
+    intros Htail (HI & (es & Hl) & Hq) HT HF. destruct l as [[l1 lE] lq]. cbn [fst snd] in *. subst lE lq. unfold gpt_retire.
+    change (@nil hent) with (map fresh_ent []). apply safe4_emit_retires. intros ents Eps. cbn [app].
+    cbn [Conc.safe]. intros g [[[x1 xE] xQ] m] tr (HInv & HE & HQc & HM) Hv.
+    unfold view4, view, viewE in Hv. cbn [fst snd] in *. getv Hv Hv1 Hm Hs HvQ. unfold a_epoch_ld. cbn [fst snd vz].
+    exists (x1, mkE (e_buf xE) (gset t (g_epoch g) (e_h xE)) (e_s xE), xQ, m). split; [split; cbn [fst snd]; [|split; [|split]]|].
+    - unfold acc. rewrite tag1. apply Inv_acc with (g := g); auto.
+    - apply InvE_load; exact HE.
+    - unfold acc. rewrite tag1. apply InvQ_acc with (g := g); auto.
+    - eapply InvM_gen with (g := g); [reflexivity|reflexivity|lia| |exact HM]. intros q e0 k1 He.
+      destruct (ent_gset _ _ _ _ _ _ He) as [X|X]; [left; exact X|right; lia].
+    - split; [apply frame4; [apply frame_refl|apply frameE_set|apply frameQ_refl]|].
+      unfold view4, view, viewE. cbn [fst snd e_h e_s]. rewrite gmine_gset_same, Hm, map_set_ep, Hv1, Hs, HvQ.
+      apply safe4_bind. rewrite <- Eps.
+      assert (Hnh : ~ holder (l_w l1)) by (destruct HI as ((_ & _ & _ & _ & ->) & _); intros []).
+      apply safe4_push_all; [exact Hnh| |intros l'; cbv beta iota; apply HF].
+      intros w' es' Hn'. cbv beta iota.
+      cbn [Conc.safe]. intros g2 [[[y1 yE] yQ] m2] tr2 (HInv2 & HE2 & HQ2 & HM2) Hv2.
+      unfold view4, view, viewE in Hv2. cbn [fst snd] in *. getv Hv2 Hv21 Hm2 Hs2 HvQ2.
+      exists (updA y1 t (set_w (y1 t) WIdle), yE, yQ, m2).
+      assert (Hres : Inv g2 (updA y1 t (set_w (y1 t) WIdle)) tr2) by (apply step_reset; [exact HInv2|rewrite Hv21; exact Hn']).
+      split; [split; cbn [fst snd]; [|split; [|split]]|].
+      + destruct Htail as [->|(name & -> & Hneu)].
+        * cbn. rewrite app_nil_r. exact Hres.
+        * unfold cli. rewrite tag1. apply Inv_cli_neutral; assumption.
+      + apply InvE_keep with (g := g2); auto.
+      + destruct Htail as [->|(name & -> & Hneu)].
+        * cbn. rewrite app_nil_r. exact HQ2.
+        * unfold cli. rewrite tag1. apply InvQ_ev with (g := g2); auto. intros X. destruct Hneu as (Y & _). congruence.
+      + apply InvM_keep with (g := g2); auto; cbn; lia.
+      + split; [apply frame4; [apply frame_updA|apply frameE_refl|apply frameQ_refl]|].
+        unfold view4, view, viewE. cbn [fst snd]. rewrite updA_same, Hv21, Hm2, Hs2, HvQ2. cbn [Conc.safe set_w].
+        apply HT. split; [cbn [fst]; apply (IdleS_set_w s l1); exact HI|]. split; [exists es'; reflexivity|reflexivity].
+  Qed.
+
+  Lemma safe4_gpt_sync s l (Q : bool -> L4 -> Prop) :
+    Between4 s l -> (forall l', Between4 s l' -> Q true l') -> (forall l', Q false l') ->
+    safe4 t (gpt_sync sfuel) l Q.
+  Proof.
+    intros (HI & (es & Hl) & Hq) HT HF. destruct l as [[l1 lE] lq]. cbn [fst snd] in *. subst lE lq. unfold gpt_sync.
+    cbn [Conc.safe]. intros g [[[x1 xE] xQ] m] tr (HInv & HE & HQc & HM) Hv.
+    unfold view4, view, viewE in Hv. cbn [fst snd] in *. getv Hv Hv1 Hm Hs HvQ.
+    assert (Hw : l_w l1 = WIdle) by (destruct HI as ((_ & _ & _ & _ & X) & _); exact X).
+    set (n := List.length tr).
+    exists (updA x1 t (set_w (set_sm l1 (Some n)) (WStart n)), xE, xQ, m). split; [split; cbn [fst snd]; [|split; [|split]]|].
+    - unfold cli. rewrite tag1. eapply step_ev_begin; eauto; try reflexivity.
+      + rewrite Hv1, Hw; intros [].
+      + rewrite Hv1; reflexivity.
+      + left. rewrite Hv1. repeat split.
+    - apply InvE_keep with (g := g); auto.
+    - unfold cli. rewrite tag1. apply InvQ_ev with (g := g); auto. discriminate.
+    - apply InvM_keep with (g := g); auto; cbn; lia.
+    - split; [apply frame4; [apply frame_updA|apply frameE_refl|apply frameQ_refl]|].
+      unfold view4, view, viewE. cbn [fst snd]. rewrite updA_same, Hm, Hs, HvQ.
+      apply safe4_bind. apply (safe4_synchronize N sfuel t Ht); [intros []| |intros l'; cbv beta iota; apply HF].
+      intros i' n' _ Hsm. cbv beta iota. cbn [set_w].
+      assert (Hni : (n <= i')%nat) by (apply Hsm; reflexivity).
+      clearbody n. clear g x1 xE xQ m tr HInv HE HQc HM Hv1 Hm Hs HvQ.
+      cbn [Conc.safe]. intros g [[[x1 xE] xQ] m] tr (HInv & HE & HQc & HM) Hv.
+      unfold view4, view, viewE in Hv. cbn [fst snd] in *. getv Hv Hv1 Hm Hs HvQ.
+      exists (updA x1 t (set_w (x1 t) WIdle), xE, xQ, m). split; [split; cbn [fst snd]; [|split; [|split]]|].
+      + unfold cli. rewrite tag1. eapply step_ev_sync_end with (i := n) (i' := i'); eauto; rewrite Hv1; reflexivity.
+      + apply InvE_keep with (g := g); auto.
+      + unfold cli. rewrite tag1. apply InvQ_ev with (g := g); auto. discriminate.
+      + apply InvM_keep with (g := g); auto; cbn; lia.
+      + split; [apply frame4; [apply frame_updA|apply frameE_refl|apply frameQ_refl]|].
+        unfold view4, view, viewE. cbn [fst snd]. rewrite updA_same, Hv1, Hm, Hs, HvQ. cbn [Conc.safe set_w].
+        apply HT. split; [|split; [eexists; reflexivity|reflexivity]]. cbn [fst].
+        destruct HI as ((H1 & H2 & H3 & H4 & H5) & H6). split; [repeat split; cbn; auto|exact H6].
+  Qed.
+
+  Definition QT4 : option lst -> L4 -> Prop := fun r l' => match r with Some s' => Between4 s' l' | None => True end.
+
+  Lemma safe4_run_top s o l : Between4 s l -> safe4 t (run_top sfuel cap cnt t s o) l QT4.
+  Proof.
+    intros HB. destruct o as [o|ps]; cbn [run_top].
+    - assert (Hcore : core_op o = true -> safe4 t (run_op 2 sfuel t s o) l QT4).
+      { intros Hc. destruct l as [[l1 lE] lq]. destruct HB as (HI & (es & Hl) & Hq). cbn [fst snd] in *. subst lE lq.
+        eapply Conc.safe_weaken; [|apply safe_lift4; [exact Ht|apply core_run_op; exact Hc|apply safe_run_op; exact HI]].
+        intros [s'|] [[l1' lE'] lq'] (HQ1 & HQ2 & HQ3); cbn [fst snd QT4] in *; [|exact I].
+        split; [exact HQ1|]. split; [exists es; exact HQ2|exact HQ3]. }
+      destruct o; try (apply Hcore; reflexivity).
+      + destruct (my_depth s) eqn:Ed; [|cbn; exact HB].
+        apply safe4_bind. apply safe4_gpt_sync with (s := s); [exact HB| |intros; exact I]. intros l' HB'. cbn. exact HB'.
+      + destruct (my_depth s) eqn:Ed; [|cbn; exact HB].
+        apply safe4_bind. apply safe4_gpt_retire with (s := s); [left; reflexivity|exact HB| |intros; exact I]. intros l' HB'. cbn. exact HB'.
+    - destruct (my_depth s) eqn:Ed; [|cbn; exact HB]. destruct ps as [|p r]; [cbn; exact HB|].
+      apply safe4_bind. apply safe4_gpt_retire with (s := s); [right; exists "batch_end"; split; [reflexivity|repeat split]|exact HB| |intros; exact I].
+      intros l' HB'. cbn. exact HB'.
+  Qed.
+
+  (** "done" and the step by which join sees the termination *)
+  Lemma safe4_done l1 es : l_ev l1 = O ->
+    safe4 t (Emit (cli "done" []) (Act a_done_inc (fun _ => Ret tt))) (l1, ([], es), clq) (@Conc.QTrue L4).
+  Proof.
+    intros Hev. cbn [Conc.safe]. intros g [[[x1 xE] xQ] m] tr (HInv & HE & HQc & HM) Hv.
+    unfold view4, view, viewE in Hv. cbn [fst snd] in *. getv Hv Hv1 Hm Hs HvQ.
+    exists (x1, xE, q_with_d xQ t, m). split; [split; cbn [fst snd]; [|split; [|split]]|].
+    - unfold cli. rewrite tag1. apply Inv_cli_neutral; [repeat split|exact HInv].
+    - apply InvE_keep with (g := g); auto.
+    - unfold cli. rewrite tag1. apply InvQ_done; [reflexivity| |exact HQc]. apply (ev0_closed g x1 tr t HInv). rewrite Hv1; exact Hev.
+    - apply InvM_keep with (g := g); auto; cbn; lia.
+    - split; [apply frame4; [apply frame_refl|apply frameE_refl|apply frameQ_d]|].
+      unfold view4, view, viewE, viewQ. cbn [fst snd q_with_d q_d q_i q_j]. rewrite Nat.eqb_refl, Hv1, Hm, Hs.
+      unfold viewQ in HvQ. assert (Hi : q_i xQ t = false) by (injection HvQ; auto). assert (Hj : q_j xQ t = false) by (injection HvQ; auto).
+      rewrite Hi, Hj. clear g x1 xE xQ m tr HInv HE HQc HM Hv1 Hm Hs HvQ Hi Hj.
+      cbn [Conc.safe]. intros g [[[x1 xE] xQ] m] tr (HInv & HE & HQc & HM) Hv.
+      unfold view4, view, viewE, viewQ in Hv. cbn [fst snd] in *. getv Hv Hv1 Hm Hs HvQ. unfold a_done_inc. cbn [fst snd].
+      exists (x1, xE, q_with_i xQ t, m). split; [split; cbn [fst snd]; [|split; [|split]]|].
+      + unfold acc. rewrite tag1. apply Inv_acc with (g := g); auto.
+      + apply InvE_keep with (g := g); auto.
+      + unfold acc. rewrite tag1. apply InvQ_inc; auto; injection HvQ; auto.
+      + apply InvM_keep with (g := g); auto. cbn; lia.
+      + split; [apply frame4; [apply frame_refl|apply frameE_refl|apply frameQ_i]|exact I].
+  Qed.
+
+  Lemma safe4_run_tops os : forall s l, Between4 s l -> safe4 t (run_tops sfuel cap cnt t s os) l (@Conc.QTrue L4).
+  Proof.
+    induction os as [|o r IH]; intros s l HB; cbn [run_tops].
+    - apply safe4_bind. destruct l as [[l1 lE] lq]. destruct HB as (HI & (es & Hl) & Hq). cbn [fst snd] in *. subst lE lq.
+      eapply Conc.safe_weaken; [|apply safe_lift4; [exact Ht|apply core_finish|apply safe_finish_ev; exact HI]].
+      intros [] [[l1' lE'] lq'] ((H1 & H2) & H3 & H4). cbn [fst snd] in *. subst lE' lq'. apply safe4_done. exact H1.
+    - apply safe4_bind. eapply Conc.safe_weaken; [|apply safe4_run_top; exact HB].
+      intros [s'|] l' HQ; cbn [QT4] in HQ.
+      + apply IH; exact HQ.
+      + apply safe4_emit_neutral; [repeat split|exact I].
+  Qed.
+
+  Lemma safe4_thread os : safe4 t (tthread_prog sfuel cap cnt t os) (l0, ([], ENone), clq) (@Conc.QTrue L4).
+  Proof.
+    unfold tthread_prog. apply safe4_act_plain.
+    - intros g. cbv beta delta [a_begin acc]. cbn. repeat (split; [reflexivity|]). eexists _, _, _; reflexivity.
+    - intros _. apply safe4_run_tops. split; [cbn; split; [repeat split|reflexivity]|]. split; [exists ENone; reflexivity|reflexivity].
+  Qed.
+  End Client.
+End Prod4b.
+
+Lemma InvM_ents g a a' m tr : (forall p e k, ent a' p e k -> ent a p e k) -> InvM g a m tr -> InvM g a' m tr.
+Proof.
+  intros H [H0 H1]. constructor; [exact H0|]. intros n i Hm. destruct (H1 n i Hm) as (A & B & C & D).
+  split; [exact A|]. split; [exact B|]. split; [exact C|]. intros p e k He Hle. apply (D p e k); [apply H; exact He|exact Hle].
+Qed.
+
+(** ** the reclamation thread (thread N) and the destructor (thread N+1) *)
+Section Prod4c.
+  Variable N : nat.
+  Notation safe4 := (@Conc.safe G V ev Aux4 L4 view4 (Inv4 N)).
+  Variables (sfuel : nat) (cap : Z) (cnt : bool).
+
+  Ltac getv Hv Hv1 Hm Hs HvQ :=
+    pose proof (f_equal (fun x : L4 => fst (fst x)) Hv) as Hv1; pose proof (f_equal (fun x : L4 => fst (snd (fst x))) Hv) as Hm;
+    pose proof (f_equal (fun x : L4 => snd (snd (fst x))) Hv) as Hs; pose proof (f_equal (fun x : L4 => snd x) Hv) as HvQ;
+    cbn [fst snd] in Hv1, Hm, Hs, HvQ; clear Hv.
+
+  Ltac keep4 g x1 xE xQ m :=
+    exists (x1, xE, xQ, m); split; [split; cbn [fst snd]; [unfold acc; rewrite tag1; apply Inv_acc with (g := g); auto|
+      split; [apply InvE_keep with (g := g); auto|split; [unfold acc; rewrite tag1; apply InvQ_acc with (g := g); auto|apply InvM_keep with (g := g); auto; cbn; lia]]]|
+      split; [intros ? ?; reflexivity|]].
+
+  (** pop_front() after the disposal *)
+  Lemma safe4_popfront {R} t l1 es lq (k : prog R) Q :
+    safe4 t k (l1, ([], es), lq) Q -> safe4 t (Act a_buf_popfront (fun _ => k)) (l1, ([], es), lq) Q.
+  Proof.
+    intros Hk. cbn [Conc.safe]. intros g [[[x1 xE] xQ] m] tr (HI & HE & HQc & HM) Hv.
+    unfold view4, view, viewE in Hv. cbn [fst snd] in *. getv Hv Hv1 Hm Hs HvQ. unfold a_buf_popfront. cbn [fst snd].
+    exists (x1, mkE (tl (e_buf xE)) (e_h xE) (e_s xE), xQ, m). split; [split; cbn [fst snd]; [|split; [|split]]|].
+    - unfold acc. rewrite tag1. apply Inv_acc with (g := g); auto.
+    - apply InvE_popfront; exact HE.
+    - unfold acc. rewrite tag1. apply InvQ_acc with (g := g); auto.
+    - eapply InvM_gen with (g := g); [reflexivity|reflexivity|cbn; lia| |exact HM]. intros q e0 k1 He. left. eapply ent_popfront; eauto.
+    - split; [intros ? ?; reflexivity|]. unfold view4, view, viewE. cbn [fst snd e_h e_s]. rewrite Hv1, Hm, Hs, HvQ. exact Hk.
+  Qed.
+
+  Lemma safe4_drain_normal f : forall n i l1 lq (Q : bool -> L4 -> Prop),
+    l_w l1 = WFin i -> Q true (l1, ([], EIn i n), lq) -> (forall l', Q false l') ->
+    safe4 N (drain f n false) (l1, ([], EIn i n), lq) Q.
+  Proof.
+    induction f as [|f IH]; intros n i l1 lq Q Hw HT HF; cbn [drain]; [apply HF|].
+    cbn [Conc.safe]. intros g [[[x1 xE] xQ] m] tr (HI & HE & HQc & HM) Hv.
+    unfold view4, view, viewE in Hv. cbn [fst snd] in *. getv Hv Hv1 Hm Hs HvQ. unfold a_buf_front.
+    destruct (g_buf g) as [|[p e] r] eqn:Eb; cbn [fst snd vp].
+    - keep4 g x1 xE xQ m. unfold view4, view, viewE. cbn [fst snd]. rewrite Hv1, Hm, Hs, HvQ. exact HT.
+    - rewrite orb_false_r. destruct (e <=? n) eqn:Ele.
+      + apply Z.leb_le in Ele.
+        destruct (InvE_peek g xE tr N p e r [(N, EvAcc KLd obj_bfront true)] Eb HE) as (k & Hin & HE').
+        assert (Hki : (k < i)%nat).
+        { destruct (EB _ _ _ HE p e k Hin) as (_ & _ & X). eapply X; eauto. }
+        exists (x1, mkE (e_buf xE) ((N, (p, Some e, k)) :: e_h xE) (e_s xE), xQ, m). split; [split; cbn [fst snd]; [|split; [|split]]|].
+        * unfold acc. rewrite tag1. apply Inv_acc with (g := g); auto.
+        * exact HE'.
+        * unfold acc. rewrite tag1. apply InvQ_acc with (g := g); auto.
+        * eapply InvM_gen with (g := g); [reflexivity|reflexivity|lia| |exact HM]. intros q e0 k1 He. left. eapply ent_peek; eauto.
+        * split; [apply frame4; [apply frame_refl|apply frameE_cons|apply frameQ_refl]|].
+          unfold view4, view, viewE. cbn [fst snd e_h e_s]. rewrite gmine_cons_same, Hv1, Hm, Hs, HvQ.
+          eapply safe4_dispose; [exact Hw|exact Hki|]. apply safe4_popfront. apply IH; auto.
+      + keep4 g x1 xE xQ m. unfold view4, view, viewE. cbn [fst snd]. rewrite Hv1, Hm, Hs, HvQ. exact HT.
+  Qed.
+
+  Definition jq : LQ := (false, false, true).
+
+  Lemma safe4_drain_quit f : forall n l1 es (Q : bool -> L4 -> Prop),
+    ~ holder (l_w l1) -> (forall w', ~ holder w' -> Q true (set_w l1 w', ([], es), jq)) -> (forall l', Q false l') ->
+    safe4 N (drain f n true) (l1, ([], es), jq) Q.
+  Proof.
+    induction f as [|f IH]; intros n l1 es Q Hn HT HF; cbn [drain]; [apply HF|].
+    cbn [Conc.safe]. intros g [[[x1 xE] xQ] m] tr (HI & HE & HQc & HM) Hv.
+    unfold view4, view, viewE in Hv. cbn [fst snd] in *. getv Hv Hv1 Hm Hs HvQ. unfold a_buf_front.
+    destruct (g_buf g) as [|[p e] r] eqn:Eb; cbn [fst snd vp].
+    - keep4 g x1 xE xQ m. unfold view4, view, viewE. cbn [fst snd]. rewrite Hv1, Hm, Hs, HvQ. rewrite <- (set_w_same l1). apply HT. exact Hn.
+    - rewrite orb_true_r.
+      destruct (InvE_peek g xE tr N p e r [(N, EvAcc KLd obj_bfront true)] Eb HE) as (k & Hin & HE').
+      assert (Hall : alld N xQ) by (apply (QM _ _ _ _ HQc N); unfold viewQ in HvQ; injection HvQ; auto).
+      assert (Hcl : closed tr (List.length tr)) by (eapply all_closed; eauto).
+      assert (Hki : (k < List.length tr)%nat).
+      { destruct (EB _ _ _ HE p e k Hin) as ((w & Hat) & _). eapply at_lt; eauto. }
+      exists (updA x1 N (set_w (x1 N) (WFin (List.length tr))), mkE (e_buf xE) ((N, (p, Some e, k)) :: e_h xE) (e_s xE), xQ, m).
+      split; [split; cbn [fst snd]; [|split; [|split]]|].
+      + unfold acc. rewrite tag1. apply step_fin with (g := g); auto. rewrite Hv1; exact Hn.
+      + exact HE'.
+      + unfold acc. rewrite tag1. apply InvQ_acc with (g := g); auto.
+      + eapply InvM_gen with (g := g); [reflexivity|reflexivity|lia| |exact HM]. intros q e0 k1 He. left. eapply ent_peek; eauto.
+      + split; [apply frame4; [apply frame_updA|apply frameE_cons|apply frameQ_refl]|].
+        unfold view4, view, viewE. cbn [fst snd e_h e_s]. rewrite updA_same, gmine_cons_same, Hv1, Hm, Hs, HvQ.
+        eapply safe4_dispose; [reflexivity|exact Hki|]. apply safe4_popfront. apply IH; [intros []| |exact HF].
+        intros w' Hw'. cbn [set_w]. apply HT. exact Hw'.
+  Qed.
+
+  Lemma safe4_take f : forall l1 es (Q : option (Z * Z) -> L4 -> Prop),
+    ~ holder (l_w l1) ->
+    (forall n i, Q (Some (n, 0)) (set_w l1 (WFin i), ([], EIn i n), clq)) ->
+    (forall n, Q (Some (n, 1)) (l1, ([], es), jq)) -> (forall l', Q None l') ->
+    safe4 N (take_task f) (l1, ([], es), clq) Q.
+  Proof.
+    induction f as [|f IH]; intros l1 es Q Hn H0 H1 HN; cbn [take_task]; [apply HN|].
+    cbn [Conc.safe]. intros g [[[x1 xE] xQ] m] tr (HI & HE & HQc & HM) Hv.
+    unfold view4, view, viewE in Hv. cbn [fst snd] in *. getv Hv Hv1 Hm Hs HvQ. unfold a_take.
+    destruct (g_task g) as [n|] eqn:Et; cbn [fst snd vp].
+    - destruct (g_quit g) eqn:Eq; cbn [Z.b2z].
+      + exists (x1, xE, q_with_j xQ N, m). split; [split; cbn [fst snd]; [|split; [|split]]|].
+        * unfold acc. rewrite tag1. apply Inv_acc with (g := g); auto.
+        * apply InvE_keep with (g := g); auto.
+        * unfold acc. rewrite tag1. apply InvQ_joined with (g := g); auto. apply (QQ _ _ _ _ HQc Eq).
+        * rewrite <- Eq. apply InvM_take; exact HM.
+        * split; [apply frame4; [apply frame_refl|apply frameE_refl|apply frameQ_j]|].
+          unfold view4, view, viewE, viewQ. cbn [fst snd q_with_j q_d q_i q_j]. rewrite Nat.eqb_refl, Hv1, Hm, Hs.
+          unfold viewQ in HvQ. assert (Hd : q_d xQ N = false) by (injection HvQ; auto). assert (Hi : q_i xQ N = false) by (injection HvQ; auto).
+          rewrite Hd, Hi. apply H1.
+      + destruct (M0 _ _ _ _ HM n Et) as [X|(i & Hmi)]; [congruence|].
+        destruct (M1 _ _ _ _ HM n i Hmi) as (A & B & C & D).
+        exists (updA x1 N (set_w (x1 N) (WFin i)), mkE (e_buf xE) (e_h xE) (fun w => if Nat.eqb w N then EIn i n else e_s xE w), xQ, m).
+        split; [split; cbn [fst snd]; [|split; [|split]]|].
+        * unfold acc. rewrite tag1. apply step_fin with (g := g); auto. rewrite Hv1; exact Hn.
+        * apply InvE_adopt with (g := g); auto.
+        * unfold acc. rewrite tag1. rewrite <- Eq. apply InvQ_mail; [left; reflexivity|exact HQc].
+        * rewrite <- Eq. apply InvM_ents with (a := xE); [intros p e k He; exact He|]. apply InvM_take; exact HM.
+        * split; [apply frame4; [apply frame_updA|apply frameE_sync|apply frameQ_refl]|].
+          unfold view4, view, viewE. cbn [fst snd e_h e_s]. rewrite updA_same, Nat.eqb_refl, Hv1, Hm, HvQ. apply H0.
+    - keep4 g x1 xE xQ m. unfold view4, view, viewE. cbn [fst snd]. rewrite Hv1, Hm, Hs, HvQ. apply IH; auto.
+  Qed.
+
+  Lemma safe4_disposer rounds fuel : forall l1 es, ~ holder (l_w l1) ->
+    safe4 N (disposer rounds fuel) (l1, ([], es), clq) (@Conc.QTrue L4).
+  Proof.
+    induction rounds as [|r IH]; intros l1 es Hn; cbn [disposer]; [exact I|].
+    cbn [Conc.safe]. intros g [[[x1 xE] xQ] m] tr (HI & HE & HQc & HM) Hv.
+    unfold view4, view, viewE in Hv. cbn [fst snd] in *. getv Hv Hv1 Hm Hs HvQ. unfold a_set_ready. cbn [fst snd].
+    exists (x1, xE, xQ, m). split; [split; cbn [fst snd]; [|split; [|split]]|].
+    - unfold acc. rewrite tag1. apply Inv_acc with (g := g); auto.
+    - apply InvE_keep with (g := g); auto.
+    - unfold acc. rewrite tag1. apply InvQ_mail; [left; reflexivity|exact HQc].
+    - apply InvM_keep with (g := g); auto; cbn; lia.
+    - split; [intros ? ?; reflexivity|]. unfold view4, view, viewE. cbn [fst snd]. rewrite Hv1, Hm, Hs, HvQ.
+      apply safe4_bind. apply safe4_take; [exact Hn| | |intros; exact I].
+      + intros n i. cbv beta iota. cbn [Z.eqb negb]. apply safe4_bind.
+        apply safe4_drain_normal; [reflexivity| |intros; exact I]. cbv beta iota. apply IH. intros [].
+      + intros n. cbv beta iota. cbn [Z.eqb negb]. apply safe4_bind.
+        apply safe4_drain_quit; [exact Hn| |intros; exact I]. intros w' Hw'. cbv beta iota.
+        apply safe4_emit_neutral; [repeat split|exact I].
+  Qed.
+
+  Lemma safe4_join f : forall l1 es (Q : bool -> L4 -> Prop),
+    Q true (l1, ([], es), jq) -> (forall l', Q false l') -> safe4 (S N) (join_clients f N) (l1, ([], es), clq) Q.
+  Proof.
+    induction f as [|f IH]; intros l1 es Q HT HF; cbn [join_clients]; [apply HF|].
+    cbn [Conc.safe]. intros g [[[x1 xE] xQ] m] tr (HI & HE & HQc & HM) Hv.
+    unfold view4, view, viewE in Hv. cbn [fst snd] in *. getv Hv Hv1 Hm Hs HvQ. unfold a_join. cbn [fst snd vz].
+    destruct (Nat.eqb_spec (g_ndone g) N) as [E|E]; cbn [Z.eqb].
+    - exists (x1, xE, q_with_j xQ (S N), m). split; [split; cbn [fst snd]; [|split; [|split]]|].
+      + unfold acc. rewrite tag1. apply Inv_acc with (g := g); auto.
+      + apply InvE_keep with (g := g); auto.
+      + unfold acc. rewrite tag1. apply InvQ_joined with (g := g); auto. eapply join_alld; eauto.
+      + apply InvM_keep with (g := g); auto; cbn; lia.
+      + split; [apply frame4; [apply frame_refl|apply frameE_refl|apply frameQ_j]|].
+        unfold view4, view, viewE, viewQ. cbn [fst snd q_with_j q_d q_i q_j]. rewrite Nat.eqb_refl, Hv1, Hm, Hs.
+        unfold viewQ in HvQ. assert (Hd : q_d xQ (S N) = false) by (injection HvQ; auto). assert (Hi : q_i xQ (S N) = false) by (injection HvQ; auto).
+        rewrite Hd, Hi. exact HT.
+    - keep4 g x1 xE xQ m. unfold view4, view, viewE. cbn [fst snd]. rewrite Hv1, Hm, Hs, HvQ. apply IH; auto.
+  Qed.
+
+  Lemma safe4_stop f : forall l1 es (Q : bool -> L4 -> Prop),
+    (forall r, Q r (l1, ([], es), jq)) -> safe4 (S N) (handoff f max_epoch true) (l1, ([], es), jq) Q.
+  Proof.
+    induction f as [|f IH]; intros l1 es Q HQ; cbn [handoff]; [apply HQ|].
+    cbn [Conc.safe]. intros g [[[x1 xE] xQ] m] tr (HI & HE & HQc & HM) Hv.
+    unfold view4, view, viewE in Hv. cbn [fst snd] in *. getv Hv Hv1 Hm Hs HvQ. unfold a_post.
+    destruct (g_ready g); cbn [fst snd vz orb].
+    - exists (x1, xE, xQ, m). split; [split; cbn [fst snd]; [|split; [|split]]|].
+      + unfold acc. rewrite tag1. apply Inv_acc with (g := g); auto.
+      + apply InvE_keep with (g := g); auto.
+      + unfold acc. rewrite tag1. apply InvQ_mail; [right; apply (QM _ _ _ _ HQc (S N)); unfold viewQ in HvQ; injection HvQ; auto|exact HQc].
+      + apply InvM_stop; exact HM.
+      + split; [intros ? ?; reflexivity|]. unfold view4, view, viewE. cbn [fst snd]. rewrite Hv1, Hm, Hs, HvQ. apply HQ.
+    - keep4 g x1 xE xQ m. unfold view4, view, viewE. cbn [fst snd]. rewrite Hv1, Hm, Hs, HvQ. apply IH; auto.
+  Qed.
+
+  Lemma safe4_destructor fuel l1 es : safe4 (S N) (destructor fuel N) (l1, ([], es), clq) (@Conc.QTrue L4).
+  Proof.
+    unfold destructor. apply safe4_bind. apply safe4_join; [|intros; exact I].
+    cbv beta iota. apply safe4_bind. apply safe4_stop. intros [|]; cbv beta iota; [|exact I].
+    apply safe4_emit_neutral; [repeat split|exact I].
+  Qed.
+End Prod4c.
+
+Lemma filter_false_len l : List.length (filter (fun _ : nat => false) l) = O.
+Proof. induction l; cbn; auto. Qed.
+
+Lemma tinit4_ok sfuel rounds cap cnt ths :
+  Conc.cfg_ok view4 (Inv4 (List.length ths)) (tinit_cfg sfuel rounds cap cnt ths).
+Proof.
+  exists (fun _ => l0, mkE [] [] (fun _ => ENone), mkQ (fun _ => false) (fun _ => false) (fun _ => false), None). split.
+  - cbn [tinit_cfg Conc.shared Conc.trace]. split; [|split; [|split]]; cbn [fst snd].
+    + split; [|split; [|split]].
+      * constructor; cbn; try discriminate; try contradiction; auto.
+        -- intros m _. exists false. reflexivity.
+        -- intros r. repeat split; auto.
+      * constructor; cbn; try contradiction; try (intros w w' []).
+        exists false. split; [reflexivity|discriminate].
+      * constructor; cbn; [discriminate|intros; exact I].
+      * constructor; cbn; try discriminate.
+        -- intros r s (e & H & _). destruct s; discriminate.
+        -- intros w i j (e & H & _). destruct i; discriminate.
+        -- intros w p d (e & H & _). destruct d; discriminate.
+    + constructor; cbn; try contradiction; try discriminate. reflexivity.
+    + constructor; cbn [q_d q_i q_j tinit g_ndone g_quit].
+      * split; [rewrite filter_false_len; reflexivity|intros; discriminate].
+      * intros X; discriminate.
+      * intros t0 X; discriminate.
+      * intros t0 X; discriminate.
+      * intros t0 s (e & H & _). destruct s; discriminate.
+    + constructor; cbn [tinit g_task]; [intros n X; discriminate|intros n i X; discriminate].
+  - intros t p Hp. cbn [tinit_cfg Conc.threads] in Hp.
+    destruct (Nat.lt_ge_cases t (List.length ths)) as [Hlt|Hge].
+    + rewrite nth_error_app1 in Hp by (rewrite map_length, number_length; exact Hlt). rewrite nth_error_map in Hp.
+      destruct (nth_error (number O ths) t) as [x|] eqn:E; [|discriminate]. inversion Hp; subst p.
+      apply nth_error_number in E. cbn in E. rewrite E. unfold view4, view, viewE, viewQ. cbn. apply safe4_thread; assumption.
+    + rewrite nth_error_app2 in Hp by (rewrite map_length, number_length; exact Hge). rewrite map_length, number_length in Hp.
+      destruct (t - List.length ths)%nat as [|[|k]] eqn:Ek; cbn in Hp; try (destruct k; discriminate).
+      * inversion Hp; subst p. assert (t = List.length ths) by lia. subst t. unfold view4, view, viewE, viewQ. cbn. apply safe4_disposer. intros [].
+      * inversion Hp; subst p. assert (t = S (List.length ths)) by lia. subst t. unfold view4, view, viewE, viewQ. cbn. apply safe4_destructor.
+Qed.
+
+(** ** theorems for every schedule: general_threaded *)
+Theorem gpt_dispose_safe_all sfuel rounds cap cnt ths c :
+  Conc.reach (tinit_cfg sfuel rounds cap cnt ths) c -> dispose_safe (Conc.trace c).
+Proof.
+  intros Hr. destruct (Conc.reach_Inv (tinit4_ok sfuel rounds cap cnt ths) Hr) as (a & (_ & _ & _ & I4) & _). apply (DS _ _ I4).
+Qed.
+
+Theorem gpt_synchronize_waits_all sfuel rounds cap cnt ths c :
+  Conc.reach (tinit_cfg sfuel rounds cap cnt ths) c -> sync_waits (Conc.trace c).
+Proof.
+  intros Hr. destruct (Conc.reach_Inv (tinit4_ok sfuel rounds cap cnt ths) Hr) as (a & (_ & _ & _ & I4) & _). apply (SW _ _ I4).
+Qed.
